@@ -10,7 +10,7 @@ import cbcheck as cc
 
 def setup():
     ok = True
-    for v in ["release", "checked", "eio", "eio-async", "eio-both"]:
+    for v in ["release", "checked", "eio", "eio-async", "eio-both", "nostd", "alloc", "unstable"]:
         r, info = cc.build(v, fatal=False)
         cc.log(f"build {v}: {'ok ' + info if r else 'FAILED'}")
         if not r:
@@ -19,7 +19,7 @@ def setup():
     sys.exit(0 if ok else 1)
 
 
-def run_reports(prop, tier, seed, runs, replay_sub, assumptions, rule, scope):
+def run_reports(prop, tier, seed, runs, replay_sub, assumptions, rule, scope, extra_cov=None):
     """runs: list of (label, variant, argv-after-binary).  Each run writes a report with
     'enumerative'/'proptest'/'failure' members like the interpreter engine."""
     t0 = time.time()
@@ -79,6 +79,8 @@ def run_reports(prop, tier, seed, runs, replay_sub, assumptions, rule, scope):
     cov["rule"] = rule
     cov["exhaustive_scope"] = scope
     cov["regression_cases_replayed"] = nreg
+    if extra_cov:
+        cov.update(extra_cov)
     cc.write_evidence(prop, tier, seed, cov, wall, 1 if violation else 0, assumptions)
     if violation:
         cc.log(f"VIOLATION property={prop} replay={violation}")
@@ -126,7 +128,164 @@ def run(prop, tier, seed):
                            "with boundary arguments (0, 1, len-1, len, len+1, N-1, N, usize::MAX) and every bound pair; proptest histories. "
                            "non-trivial: N >= 2^32 (front position within 12 of 0 or of N by construction); distinct by case hash",
                            "13 capacities x 66 constructed layouts x every listed operation/argument class, each followed by a fixed 4-step tail")
+    if prop == "C17":
+        extra = core_only_builds(prop, tier, seed)
+        runs = [("crate-features-std", "release", ["alloc"]), ("crate-features-none", "nostd", ["alloc"]), ("crate-features-alloc", "alloc", ["alloc"])]
+        return run_reports(prop, tier, seed, runs, "replay-alloc",
+                           ["the counting #[global_allocator] of the harness sees every heap allocation and reallocation of the process; counts are per thread",
+                            "harness bookkeeping (argument construction, result destruction) happens outside the measured window",
+                            "panicking calls are excluded (the panic machinery allocates); boxed() and to_vec() are excluded as the property states"],
+                           "histories over a non-allocating element type with Clone/Drop side effects; every crate call (including creation, each step and the drop of "
+                           "iterators and drains) is measured separately and must perform 0 allocations and 0 reallocations; exhaustive single steps from every layout of "
+                           "capacities 0..=6 plus proptest histories up to capacity 1000; run against the crate built with features {std}, {} and {alloc}. "
+                           "non-trivial: the measured call moved, created or destroyed at least one element; distinct by case hash",
+                           "all layouts of capacities 0..=6 x every operation with every in-range argument", extra_cov=extra)
+    if prop == "C18":
+        return run_c18(tier, seed)
     cc.inconclusive(f"property {prop} has no engine yet")
+
+
+def run_c18(tier, seed):
+    """Differential: stable default build vs nightly + `unstable` feature, same generated cases, per-unit trace
+    digests compared position by position; the unstable build also runs every oracle itself."""
+    prop = "C18"
+    t0 = time.time()
+    cc.build("release")
+    ok, info = cc.build("unstable", fatal=False)
+    if not ok:
+        cc.log(info)
+        cc.write_min_evidence(prop, tier, seed, time.time() - t0, 0, "nightly + unstable build failed")
+        cc.inconclusive("property=C18: the harness does not build with `cargo +nightly --features unstable` (toolchain or crate no longer compiles the feature)")
+    os.makedirs(cc.OUT, exist_ok=True)
+    cov = {"evaluations": 0, "distinct_nontrivial": 0, "samples": [], "per_property": {}, "exhaustive": True,
+           "rule": "the complete case spaces of C01-C12 and C20 (enumerative parts in full, proptest parts with the same seeds) are executed in the stable default "
+                   "build and in the nightly build with the `unstable` feature; per layout unit a 64-bit digest of the full observable trace (results, contents after "
+                   "each step, panic flags, element lifecycle events, injected-fault outcomes) must be equal in both builds; the unstable build also runs every oracle "
+                   "of those properties itself, and additionally the C13/C14/C19 engines. non-trivial: as defined by the underlying property (nearly every case executes "
+                   "a cfg(feature = \"unstable\") region: new, From<[T;M]>, extend_from_slice, slice views, iterator stepping, drain views); distinct by case hash"}
+    violation = None
+    for sub in cc.ENGINE_A:
+        reps = {}
+        for v in ("release", "unstable"):
+            out = os.path.join(cc.OUT, f"C18.{sub}.{v}.json")
+            if os.path.exists(out):
+                os.remove(out)
+            p = subprocess.run([cc.binary(v), "run", sub, "--tier", tier, "--seed", str(seed), "--out", out, "--unit-digests",
+                                "--crash-file", out + ".crash"], stdout=subprocess.PIPE, stderr=subprocess.STDOUT, text=True)
+            if p.returncode != 0 or not os.path.exists(out):
+                if v == "unstable" and p.returncode in (70, 71, -6, -11):
+                    verdict, path = cc.triage_crash(sub, v, out + ".crash", "hang" if p.returncode == 71 else "crash")
+                    if verdict == "violation":
+                        violation = (path, f"the unstable build crashes where the stable build does not ({sub})")
+                        break
+                cc.log(p.stdout[-1500:])
+                cc.write_min_evidence(prop, tier, seed, time.time() - t0, 0, f"engine exit {p.returncode} on {v}/{sub}")
+                cc.inconclusive(f"property=C18 sub={sub} build={v}: engine exit {p.returncode}")
+            reps[v] = json.load(open(out))
+        if violation:
+            break
+        st, un = reps["release"], reps["unstable"]
+        if un.get("failure"):
+            f = un["failure"]
+            path = cc.save_replay(prop, {"property": prop, "sub_property": sub, "build": "unstable", "case": f["case"], "message": f["message"], "rendered": f["rendered"]})
+            cc.log(f"with the unstable feature a {sub} oracle fails: {f['rendered']}\n  {f['message']}")
+            violation = (path, f["message"])
+            break
+        if st.get("failure"):
+            cc.write_min_evidence(prop, tier, seed, time.time() - t0, 0, f"the stable build fails {sub} itself")
+            cc.inconclusive(f"property=C18: the stable build itself fails {sub}; fix that first (see ./check {sub})")
+        ds, du = st["enumerative"]["unit_digests"], un["enumerative"]["unit_digests"]
+        diff = [i for i in range(min(len(ds), len(du))) if ds[i] != du[i]]
+        pd = st.get("proptest", {}).get("digest") != un.get("proptest", {}).get("digest")
+        if diff or len(ds) != len(du):
+            unit = diff[0] if diff else min(len(ds), len(du))
+            lines = {}
+            for v in ("release", "unstable"):
+                p = subprocess.run([cc.binary(v), "unit", sub, str(unit), "--tier", tier], stdout=subprocess.PIPE, stderr=subprocess.STDOUT, text=True)
+                lines[v] = p.stdout.splitlines()
+            case, pair = None, None
+            for a, b in zip(lines["release"], lines["unstable"]):
+                if a != b:
+                    case = json.loads(a.split(" ", 1)[1]) if not a.startswith("FAIL") else json.loads(a.split(" ", 2)[1])
+                    pair = (a.split(" ", 1)[0], b.split(" ", 1)[0])
+                    break
+            path = cc.save_replay(prop, {"property": prop, "sub_property": sub, "case": case, "stable_digest": pair[0] if pair else None,
+                                         "unstable_digest": pair[1] if pair else None,
+                                         "message": "the observable trace of this case differs between the stable default build and the nightly `unstable` build"})
+            cc.log(f"trace differs between stable and unstable for {sub} unit {unit}: {json.dumps(case)[:400]}")
+            violation = (path, "trace digest differs")
+            break
+        if pd:
+            path = cc.save_replay(prop, {"property": prop, "sub_property": sub, "case": None, "seed": seed,
+                                         "message": f"the combined trace digest of the proptest histories of {sub} (seed {seed}) differs between the stable and the unstable build; rerun ./check {sub} on both builds to localise"})
+            violation = (path, "proptest digest differs")
+            break
+        ev = un["enumerative"]["evaluations"] + un.get("proptest", {}).get("evaluations", 0)
+        dn = un["enumerative"]["distinct_nontrivial"] + un.get("proptest", {}).get("distinct_nontrivial", 0)
+        cov["evaluations"] += 2 * ev
+        cov["distinct_nontrivial"] += dn
+        cov["per_property"][sub] = {"cases_per_build": ev, "distinct_nontrivial": dn, "layout_units_compared": len(ds),
+                                    "enumerative_digest": un["enumerative"]["digest"], "proptest_digest": un.get("proptest", {}).get("digest")}
+        if len(cov["samples"]) < 12:
+            cov["samples"] += un["enumerative"]["samples"][:1]
+    if not violation:
+        # engines without trace digests: the unstable build must pass their oracles itself
+        for label, argv in (("C13", ["cmp"]), ("C14", ["io", "C14", "--apis", "std"]), ("C19", ["zst"])):
+            out = os.path.join(cc.OUT, f"C18.{label}.unstable.json")
+            p = subprocess.run([cc.binary("unstable")] + argv + ["--tier", tier, "--seed", str(seed), "--out", out], stdout=subprocess.PIPE, stderr=subprocess.STDOUT, text=True)
+            if p.returncode != 0:
+                cc.log(p.stdout[-1500:])
+                cc.inconclusive(f"property=C18: engine {label} exited {p.returncode} in the unstable build")
+            rep = json.load(open(out))
+            if rep.get("failure"):
+                f = rep["failure"]
+                path = cc.save_replay(prop, {"property": prop, "sub_property": label, "build": "unstable", "case": f["case"], "message": f["message"], "rendered": f["rendered"]})
+                cc.log(f"with the unstable feature a {label} oracle fails: {f['rendered']}\n  {f['message']}")
+                violation = (path, f["message"])
+                break
+            ev = rep["enumerative"]["evaluations"] + rep["proptest"]["evaluations"]
+            cov["evaluations"] += ev
+            cov["per_property"][label] = {"cases_unstable_build_only": ev}
+    wall = time.time() - t0
+    cc.write_evidence(prop, tier, seed, cov, wall, 1 if violation else 0,
+                      ["case generation is a pure function of the seed, so both builds execute the same cases",
+                       "the digest covers results, contents after each step, documented-panic flags and the element lifecycle log; raw hash values and Debug text are compared inside each build, not across toolchains",
+                       "if the nightly toolchain can no longer build the feature the check reports INCONCLUSIVE (exit 2), not a violation"])
+    if violation:
+        cc.log(f"VIOLATION property={prop} replay={violation[0]}")
+        sys.exit(1)
+    cc.log(f"OK property={prop} tier={tier} evaluations={cov['evaluations']} distinct_nontrivial={cov['distinct_nontrivial']} wall={wall:.1f}s")
+    sys.exit(0)
+
+
+def core_only_builds(prop, tier, seed):
+    """The sentence 'builds without std / with alloc only': the library is built against a sysroot that has
+    only `core` (resp. `core` + `alloc`), where a stray std/alloc dependency cannot resolve."""
+    t0 = time.time()
+    res = {}
+    for label, args in (("no-default-features, sysroot = core only", ["--no-default-features", "-Zbuild-std=core"]),
+                        ("features = alloc, sysroot = core + alloc", ["--no-default-features", "--features", "alloc", "-Zbuild-std=core,alloc"])):
+        cmd = ["cargo", "+nightly", "build", "--lib", "--offline", "--target", "x86_64-unknown-linux-gnu",
+               "--target-dir", os.path.join(cc.TARGET, "core-only")] + args
+        p = subprocess.run(cmd, cwd="/repo", env=cc.ENV, stdout=subprocess.PIPE, stderr=subprocess.STDOUT, text=True)
+        if p.returncode == 0:
+            res[label] = "builds"
+            continue
+        out = p.stdout
+        in_crate = ("--> src/" in out) or ("can't find crate for `std`" in out) or ("can't find crate for `alloc`" in out)
+        if in_crate:
+            os.makedirs(cc.REPLAYS, exist_ok=True)
+            path = os.path.join(cc.REPLAYS, "C17-build-" + ("core" if "core only" in label else "alloc") + ".log")
+            open(path, "w").write("command: " + " ".join(cmd) + "\n(cwd /repo)\n\n" + out)
+            cc.log("\n".join(out.splitlines()[-30:]))
+            cc.log(f"the crate does not build with {label}")
+            cc.write_min_evidence(prop, tier, seed, time.time() - t0, 1, f"crate does not build: {label}")
+            cc.log(f"VIOLATION property={prop} replay={path}")
+            sys.exit(1)
+        cc.log("\n".join(out.splitlines()[-30:]))
+        cc.write_min_evidence(prop, tier, seed, time.time() - t0, 0, f"could not run the core-only build: {label}")
+        cc.inconclusive(f"property={prop}: the build-std toolchain step failed for reasons outside the crate ({label})")
+    return {"configuration_builds": res}
 
 
 def replay(prop, path):
@@ -140,6 +299,44 @@ def replay(prop, path):
             cc.log(f"--- build {v}")
             cc.log(p.stdout.strip())
             bad |= p.returncode not in (0, 5)
+        if bad:
+            cc.log(f"VIOLATION property={prop} replay={path}")
+            sys.exit(1)
+        sys.exit(0)
+    if prop == "C18":
+        meta = json.load(open(path))
+        sub = meta.get("sub_property", "C01")
+        if meta.get("case") is None:
+            cc.log(meta.get("message", ""))
+            cc.inconclusive("this C18 replay file has no single case; rerun ./check C18")
+        cc.build("release")
+        cc.build("unstable")
+        sub_cmd = {"C13": "replay-cmp", "C14": "replay-io", "C19": "replay-zst"}.get(sub)
+        outs = {}
+        bad = False
+        for v in ("release", "unstable"):
+            cmd = [cc.binary(v), sub_cmd, path] if sub_cmd else [cc.binary(v), "replay", sub, path]
+            p = subprocess.run(cmd, stdout=subprocess.PIPE, stderr=subprocess.STDOUT, text=True, timeout=120)
+            cc.log(f"--- build {v} (exit {p.returncode})")
+            cc.log(p.stdout.strip())
+            outs[v] = [l for l in p.stdout.splitlines() if l.startswith("trace digest")]
+            bad |= p.returncode != 0
+        if bad or outs["release"] != outs["unstable"]:
+            cc.log(f"VIOLATION property={prop} replay={path}")
+            sys.exit(1)
+        sys.exit(0)
+    if prop == "C17":
+        if path.endswith(".log"):
+            core_only_builds(prop, "quick", 0)
+            cc.log("the crate builds in both configurations now")
+            sys.exit(0)
+        bad = False
+        for v in ["release", "nostd", "alloc"]:
+            cc.build(v)
+            p = subprocess.run([cc.binary(v), "replay-alloc", path], stdout=subprocess.PIPE, stderr=subprocess.STDOUT, text=True, timeout=120)
+            cc.log(f"--- build {v}")
+            cc.log(p.stdout.strip())
+            bad |= p.returncode != 0
         if bad:
             cc.log(f"VIOLATION property={prop} replay={path}")
             sys.exit(1)
